@@ -1,8 +1,9 @@
 """C12 — tree tensor network time evolution matches the exact propagator (partial).
-L1: Lean: traversal bookkeeping of the two-site projector-splitting sweep (one two-site step per edge,
-    for every rooted tree); C09's Runge-Kutta skeleton (any module) and C11's state-sum model.
-L2: the traversal model against the REAL _tdvp_ps2_recursion_forward: the number of two-site local
-    steps reported by the sweep equals the number of edges of the tree.
+L1: Lean: traversal of the one- and two-site projector-splitting sweeps, for every rooted tree: one local step per
+    node / edge, backward half sweep = mirror image of the forward one, hence a symmetric (time-reversible)
+    composition; C09's Runge-Kutta skeleton (any module) and C11's state-sum model.
+L2: exact replay of the event sequence (function, node, sign of the local time step) of the REAL sweeps
+    (_tdvp_ps_forward/backward, _tdvp_ps2_recursion_forward/backward) on random trees against the Lean models.
 L3: dense propagator oracle for all four schemes, real and imaginary time (search_c12)."""
 import numpy as np
 
@@ -59,9 +60,95 @@ def l2_ps2_counts(run, rng, quick):
     return done
 
 
+def l2_sweep_events(run, rng, quick):
+    """exact replay: the sequence of local propagations (function, node, sign of the time step) of the REAL one- and
+    two-site sweeps on random trees against the Lean traversal models (Driver/C12.lean)."""
+    import lib_tree as lt
+    import renormalizer.tn.time_evolution as te
+    from renormalizer.tn.tree import TTNO, TTNS
+    from renormalizer.utils import EvolveConfig, EvolveMethod
+    rec = []
+    state = dict(ids=None)
+    orig = dict(one=te.evolve_1site, zero=te.evolve_0site, two=te.evolve_2site)
+
+    def sgn(tau):
+        return "+" if np.real(tau) > 0 else "-"
+
+    def w1(snode, ttns, ttno, ttne, coeff, tau):
+        rec.append(("1" + sgn(tau), state["ids"][id(snode)], abs(tau)))
+        return orig["one"](snode, ttns, ttno, ttne, coeff, tau)
+
+    def w0(ms, snode, ttns, ttno, ttne, coeff, tau):
+        rec.append(("0" + sgn(tau), state["ids"][id(snode)], abs(tau)))
+        return orig["zero"](ms, snode, ttns, ttno, ttne, coeff, tau)
+
+    def w2(snode, ttns, ttno, ttne, coeff, tau):
+        rec.append(("2" + sgn(tau), state["ids"][id(snode)], abs(tau)))
+        return orig["two"](snode, ttns, ttno, ttne, coeff, tau)
+    NAME = {"1+": "k1", "0-": "k0", "2+": "two", "1-": "one"}
+    te.evolve_1site, te.evolve_0site, te.evolve_2site = w1, w0, w2
+    reqs, meta = [], []
+    try:
+        for _ in range(12 if quick else 120):
+            descs = lt.random_basis_descs(rng, int(rng.integers(2, 7)), qn_mode="none", kinds=["spin"])
+            descs2, spec = lt.random_tree_spec(rng, descs, n_dummy=int(rng.integers(0, 2)), max_group=1)
+            n = len(spec["groups"])
+            if n < 2:
+                continue
+            basis_list = lt.make_basis_list(descs2)
+            tree, nodes = lt.build_basis_tree(spec, basis_list)
+            terms = lt.random_terms(rng, descs2, 3, factor_scale="unit", structure=False)
+            ops = lt.terms_to_ops(None, terms, explicit_qn=False)
+            for method, kinds in ((EvolveMethod.tdvp_ps, ("ps1f", "ps1b")), (EvolveMethod.tdvp_ps2, ("ps2f", "ps2b"))):
+                try:
+                    ttno = TTNO(tree, ops)
+                    ttns = TTNS.random(tree, 0, 3, 1.0)
+                    ttns.evolve_config = EvolveConfig(method)
+                    # the sweep runs on a copy: number the nodes of the copy through a wrapper of the method
+                    tau = 0.02
+                    meth = te.EVOLVE_METHODS[method]
+
+                    def numbered(t, o, c, dt, _m=meth):
+                        state["ids"] = {id(nd): k for k, nd in enumerate(t.node_list)}
+                        state["adj"] = [[state["ids"][id(ch)] for ch in nd.children] for nd in t.node_list]
+                        state["root"] = state["ids"][id(t.root)]
+                        return _m(t, o, c, dt)
+                    te.EVOLVE_METHODS[method] = numbered
+                    del rec[:]
+                    try:
+                        ttns.evolve(ttno, tau)
+                    finally:
+                        te.EVOLVE_METHODS[method] = meth
+                except Exception as e:  # noqa
+                    run.count("sweep-raised:" + type(e).__name__)
+                    continue
+                adj = "|".join(",".join(map(str, a)) if a else "." for a in state["adj"])
+                events = [NAME.get(k, "bad" + k) + ":" + str(v) for k, v, _ in rec]
+                steps = {round(float(a) / tau, 12) for _, _, a in rec}
+                run.count(f"sweep:{method.name}:nodes={n}:branching={max(len(a) for a in state['adj'])}")
+                if steps != {0.5}:
+                    run.violation(f"corr:sweep-local-time-step:{method.name}",
+                                  dict(correspondence="every local propagation of a half sweep runs over tau/2", spec=spec,
+                                       local_steps_over_tau=sorted(steps)), no_input=True)
+                half = len(events) // 2
+                for kind, ev in zip(kinds, (events[:half], events[half:])):
+                    reqs.append(f"{kind} {state['root']} {adj}")
+                    meta.append((kind, ev, dict(spec=spec, adjacency=state["adj"], root=state["root"], method=method.name, all_events=events)))
+    finally:
+        te.evolve_1site, te.evolve_0site, te.evolve_2site = orig["one"], orig["zero"], orig["two"]
+    replies = common.run_driver("RenoVerif/Driver/C12.lean", reqs) if reqs else []
+    for (kind, ev, info), req, rep in zip(meta, reqs, replies):
+        impl = ",".join(ev) if ev else "-"
+        run.sample(dict(request=req, model=rep, impl=impl), limit=4)
+        if rep != impl:
+            run.violation(f"corr:sweep-events:{kind}", dict(correspondence="RenoVerif.TreeSweep traversal model vs recorded local propagations of the real sweep",
+                                                             info=info, model=rep, impl=impl), no_input=True)
+    return len(reqs)
+
+
 if __name__ == "__main__":
     common.main_wrapper(lambda: generic_check.run_check(
-        "C12", "other", ["RenoVerif/Props/C12.lean", "RenoVerif/Props/C09.lean"], [l2_ps2_counts],
+        "C12", "other", ["RenoVerif/Props/C12.lean", "RenoVerif/Props/C09.lean"], [l2_ps2_counts, l2_sweep_events],
         ["error orders, conservation laws, agreement with the chain implementation are numerical (dense oracle)",
          "local Krylov exponentials are parameters (C18 contract)"],
         "random spin trees (2-4 nodes + optional dummy) x tdvp_ps2 step: two-site step count vs edges",
